@@ -564,6 +564,19 @@ def loop_ctx(rng, variant):
         s.ctl('cancel', id=r2)
         s.wait([r2], ms=10000)
         s.ctl('q')
+    elif variant == 'late-reader':
+        # a POST is answered when the peer's reader has taken the envelope - however long that takes (here: 10.5 s of
+        # real time, longer than the round figures people put into http.Client.Timeout): the Write waits, then succeeds
+        r0 = s.op('r', end='A', addr='B')                       # a reader on the sender's side of the connection stays put
+        w = s.op('w', end='A', addr='B', v=hval(g, 'srcA', small=True))
+        s.ctl('sleep', ms=10500)
+        s.ctl('q')
+        r = s.op('r', end='B', addr='A')
+        s.wait([w, r], ms=10000)
+        s.ctl('q')
+        s.ctl('cancel', id=r0)
+        s.wait([r0], ms=10000)
+        s.ctl('q')
     elif variant == 'blocked-read':
         r = s.op('r', end='B', addr='A')
         s.ctl('sleep', ms=30)
@@ -666,7 +679,7 @@ def generate(tier, rng):
         for v in ('blocked-read', 'pre-read', 'blocked-serve', 'pre-serve', 'pre-serve-reader', 'fresh-blocked-serve'):
             out.append(http_ctx(rng, v))
         for v in ('blocked-write', 'pre-write', 'unreachable', 'unreachable-twice', 'unreachable-after-timeout', 'blocked-write-timeout-cancel', 'blocked-read',
-                  'lost-reply-0', 'lost-reply-1', 'lost-reply-3'):
+                  'lost-reply-0', 'lost-reply-1', 'lost-reply-3', 'late-reader'):
             out.append(loop_ctx(rng, v))
     # raw inputs: ~500 (quick) / ~20000 (thorough)
     for _ in range(10 if quick else 330):
